@@ -8,9 +8,15 @@ CLAIMED = {
     "C01": dict(cat="model_checking", tech="TLA+ terminal model (spec/term) + TLC trace validation of per-character executions of the real emulations; crash containment by worker processes",
                 text="Every character fed to each of the ten text emulations is one recorded step judged by Trace_Term under TLC (outcome must be an action or an error; a worker abort is a crash event). Streams come from the control-function table x parameter classes, sub-language strings, front-end lead-ins, random bytes, on screens 1..132 x 1..60. Observation of generated executions, not a proof.",
                 note="dev-profile build (overflow checks); catch_unwind per character; aborts attributed via progress file", ref="4/C01"),
+    "C03": dict(cat="model_checking", tech="complete control-function table x extreme parameter classes + macro/sixel/font/avatar extremes executed against the real emulations under a 5 s / 1 GiB sandbox; limits judged by TLC on the trace (Trace_Term), post-states compared with the clamped Term.tla model; GrowthBounded model-checked",
+                text="Every CSI final x intermediate x parameter vector over {0,1,80,25,2^16,10^6,2^31-1} (all vectors up to length 1-2, seeded beyond), recursive macros, hex repeat groups, sixel raster/repeat/colour headers, font DCS payloads and Avatar repeats run in crash-contained workers with a 5 s watchdog and 1 GiB address space; a timeout, allocation failure, stack overflow or a >5 s step is a violation. The model's clamps are model-checked (GrowthBounded) and each post-state is compared with the model.",
+                note="time and memory are measured on this machine with the property's own generous limits; file-header extremes are exercised by the C02 check", ref="4/C03"),
     "C09": dict(cat="model_checking", tech="caret-in-screen / fixed-grid invariants evaluated by TLC on the recorded geometry after every character (Trace_Term)",
                 text="After every character of every generated stream (until a resize request) the recorded caret, terminal size and buffer size must satisfy CaretInScreen, and Viewdata/Mode 7 the fixed 40x24 grid; evaluated by TLC on traces of the real engine. Bounded/sampled exploration of the input space.",
                 note="geometry read through the public API after each character", ref="4/C09"),
+    "C10": dict(cat="model_checking", tech="boundary code points pushed through every entry point (DECFRA, clipboard records, glyph tables, IcyDraw cell records and strings); recorded cell values / string bytes judged by TLC against Utf8.tla (Scalar, WellFormed); MC_Utf8 and MC_Term Sane on the model",
+                text="All 65536 16-bit clipboard values, boundary and seeded 32-bit values in DECFRA (five emulations, full cell projection) and in IcyDraw character fields (first and continuation chunk), PSF2 glyph tables around 0xD800 glyphs and ill-formed title / font-name bytes are fed to the real engine; every stored character must be a Unicode scalar value and every string well-formed UTF-8, evaluated by TLC on the recorded values. A worker abort on an invalid char (UB check) is also a violation.",
+                note="materialising an invalid char is UB: observation after the fact is reliable in practice only", ref="4/C10"),
     "C12": dict(cat="model_checking", tech="TLA+ pixel model of the colour optimiser scan (ColorOpt.tla) model-checked over glyph/colour classes; TLC witnesses instantiated with real glyphs; rendered-image equality and per-cell rewrite rules validated by TLC on traces",
                 text="ColorOpt.tla defines Pixel/RenderEq and the optimiser as a scan carrying the previous attribute; TLC checks PixelsOk/OnlyAllowed for every carried-colour state x next-cell class; 9000 TLC witnesses are instantiated with real glyphs of built-in (and derived user) fonts, every glyph of all built-in fonts is swept, random 1-4 layer documents are optimised with both whitespace settings; the property layer is equality of the two render_to_rgba images and sizes, the model layer re-derives every rewrite.",
                 note="reference renderer = Buffer::render_to_rgba; direct RGB 0,0,0 (equals the transparent colour) and font pages without a font are outside the stated domain", ref="4/C12"),
